@@ -8,7 +8,11 @@ VARIABLE c
 \* dup: a third crate defines a type with the same Rust identifier; dup_renamed: that one carries its own serde(rename)
 \* root: where the workspace lies: plain (no ancestor directory is called src) / under_src (the whole workspace lies below a
 \* directory called src, as in ~/src/project) / under_src_twice. The crate of a file does not depend on it (Workspace!CrateDirOf).
-Init == c \in { r \in [form : Forms, dir : Dirs, depth : Depths, renamed : BOOLEAN, dup : BOOLEAN, dup_renamed : BOOLEAN, root : Roots] :
+\* shadow: the consumer FILE also has a generic item one of whose type parameters is called like the imported type
+\* (struct Wrapper<Target> { w: Target }): inside that item the name is a placeholder, everywhere else in the file it is the
+\* imported type, which still has to be imported
+Init == c \in { r \in [form : Forms, dir : Dirs, depth : Depths, renamed : BOOLEAN, dup : BOOLEAN, dup_renamed : BOOLEAN, root : Roots, shadow : BOOLEAN] :
+                  /\ r.shadow => (~r.dup /\ r.root = "plain" /\ r.depth = "lib")
                   /\ r.dup_renamed => r.dup
                   /\ r.root # "plain" => (r.depth = "lib" /\ ~r.dup) }
 Next == UNCHANGED c
